@@ -19,7 +19,7 @@ TRUSTED = ["rustc / extractor", "SRP-6 agreement lemma for the five checked form
 NOT_DECIDED = ["the algebraic lemma itself", "SHA-1"]
 # padding: the three named copy sites and to_bytes_le are required one by one (a missing one is a
 # violation of its own); the From<Integer> impls are checked wherever they exist - unused ones may go
-FLOORS = {"formula": 5, "same-derivation": 5, "padding": 4, "roundtrip": 7, "case": 2}
+FLOORS = {"formula": 5, "same-derivation": 5, "padding": 4, "roundtrip": 7, "case": 2, "honest-keys-accepted": 1}
 
 
 def applicable(feats):
@@ -276,6 +276,10 @@ def check(ctx, rep):
     c13.check(ctx, rep_select(rep, "case", {"normal-form", "view", "who-may-construct", "constructors"}))
     # a copy of the stored verifier / of the challenge state is the same value
     util.clone_fidelity(ctx, rep, "roundtrip", ("server::SrpVerifier", "server::SrpProof", "server::SrpServer", "client::SrpClientChallenge", "client::SrpClient"))
+    # "every pair of ephemeral private keys": the public-key validation must not refuse a key an
+    # honest peer can produce - exactly 0 and N (mod N) are refused, nothing else (C04's rule)
+    from . import c04
+    c04.check(ctx, rep_select(rep, "honest-keys-accepted", {"reject-set"}))
 
 
 class rep_filter:
